@@ -706,16 +706,23 @@ pub fn plan(prop: &str, tier: &str) -> Option<Plan> {
                     s.push(set(e1(prop, "u32", hk, 0, "skey+sshape", &["cursor"], 130, 1, 1, "chk", 900.0)));
                     s.push(set(e1(prop, "tk", hk, 0, "skey+sshape", &["cursor"], 64, 1, 1, "chk", 900.0)));
                     s.push(set(e1(prop, "u32", hk, 0, "skey+sshape", &["cursor"], 40, 2, 1, "chk", 1200.0)));
-                    s.extend(pairs("u32", hk, 64, 300, 4, 1200.0));
+                    s.extend(pairs("u32", hk, 64, 500, 4, 1200.0));
                 }
                 s.push(set(e2(prop, "u32", H_GOOD, "skey+sshape2", &["cursor"], 6, "chk", 1200.0)));
                 s.push(set(e2(prop, "tk", H_LOW, "skey+sshape2", &["cursor"], 5, "chk", 1200.0)));
                 s.push(set(e2(prop, "u32", H_CONST, "skey+sshape2", &["cursor"], 5, "chk", 1200.0)));
                 s.push(set(e2(prop, "zst", H_GOOD, "skey+sshape2", &["cursor"], 1, "chk", 100.0)));
-                s.extend(pairs("tk", H_GOOD, 64, 200, 4, 1200.0));
-                s.extend(pairs("u32", H_GOOD, 130, 300, 4, 1200.0));
+                s.extend(pairs("tk", H_GOOD, 64, 300, 4, 1200.0));
+                s.extend(pairs("u32", H_GOOD, 130, 500, 8, 1200.0));
+                for &hk in &HS4 {
+                    let mut x = pairs("u32", hk, 33, 60, 1, 1200.0).remove(0);
+                    x.extra.insert("deep".into(), "4".into());
+                    x.extra.insert("deep_ns".into(), "7,14,15,29,30,31,57,60".into());
+                    x.extra.insert("deep_cap".into(), "4000".into());
+                    s.push(x);
+                }
                 s.extend(pairs("zst", H_GOOD, 2, 40, 1, 100.0));
-                bounds = json!({"E1": "set histories: d<=1 at N=130, d<=2 at N=40 (4 hashers)", "E2": "fixpoint u=6/5, ZST", "E3": "every ordered pair of a family of <=300 set states (to N=64/130) x 4 overlap patterns x 2 seed pairs, 4 hashers"});
+                bounds = json!({"E1": "set histories: d<=1 at N=130, d<=2 at N=40 (4 hashers)", "E2": "fixpoint u=6/5, ZST", "E3": "every ordered pair of a family of <=500 set states (to N=64/130) x 4 overlap patterns x 2 seed pairs, 4 hashers; deep second operands (depth 4)"});
             }
         }
         "C14" => {
@@ -739,11 +746,11 @@ pub fn plan(prop: &str, tier: &str) -> Option<Plan> {
                 s.extend(mk("map", "u32", 20, true, 3, 45.0));
                 bounds = json!({"classes": "for every n<=64: orders {identity,reverse,rotate} x initial capacity {0,2n+1} x tombstones {0,n/2} x splices {none,reserve mid-way,shrink_to_fit at the end} x hashers {HGood seed 1, HGood seed 2, HLow}; one member per physical layout; all ordered pairs, triples of the first 12, single-element negatives; rich product (5 orders x 3 capacities x 5 splices x 5 hashers) for n<=20"});
             } else {
-                s.extend(mk("map", "u32", 96, true, 16, 1500.0));
-                s.extend(mk("set", "u32", 96, true, 8, 1500.0));
-                s.extend(mk("map", "tk", 64, true, 8, 1500.0));
-                s.extend(mk("set", "tk", 48, false, 4, 1500.0));
-                bounds = json!({"classes": "for every n<=96: 5 orders x 3 initial capacities x 2 tombstone patterns x 5 splices x 5 hasher states; all ordered pairs per class, negatives"});
+                s.extend(mk("map", "u32", 260, true, 16, 1500.0));
+                s.extend(mk("set", "u32", 260, true, 8, 1500.0));
+                s.extend(mk("map", "tk", 130, true, 8, 1500.0));
+                s.extend(mk("set", "tk", 130, true, 8, 1500.0));
+                bounds = json!({"classes": "for every n<=260 (Tk: 130): 5 orders x 3 initial capacities x 2 tombstone patterns x 5 splices x 5 hasher states; all ordered pairs per class, negatives"});
             }
         }
         "C15" => {
@@ -826,16 +833,21 @@ pub fn plan(prop: &str, tier: &str) -> Option<Plan> {
             } else {
                 for w in ["map", "set"] {
                     for &hk in &HS4 {
-                        s.push(single(w, "u32", hk, 130, 900.0));
-                        s.push(single(w, "tk", hk, 64, 900.0));
+                        s.push(single(w, "u32", hk, 400, 900.0));
+                        s.push(single(w, "tk", hk, 130, 900.0));
                     }
                     s.push(single(w, "zst", H_GOOD, 2, 100.0));
                 }
                 for &hk in &HS4 {
-                    s.extend(pairs("u32", hk, 64, 240, 4, 1200.0));
+                    s.extend(pairs("u32", hk, 64, 400, 4, 1200.0));
+                    let mut x = pairs("u32", hk, 33, 60, 1, 1200.0).remove(0);
+                    x.extra.insert("deep".into(), "4".into());
+                    x.extra.insert("deep_ns".into(), "7,14,15,29,30,31,57,60".into());
+                    x.extra.insert("deep_cap".into(), "4000".into());
+                    s.push(x);
                 }
-                s.extend(pairs("tk", H_GOOD, 40, 160, 4, 1200.0));
-                bounds = json!({"single": "every family state to N=130 (u32) / 64 (Tk), 4 hashers", "pairs": "deserialize_in_place for every ordered pair of <=240 states x 4 hints x 2 seed pairs, 4 hashers"});
+                s.extend(pairs("tk", H_GOOD, 40, 240, 4, 1200.0));
+                bounds = json!({"single": "every family state to N=400 (u32) / 130 (Tk), 4 hashers", "pairs": "deserialize_in_place for every ordered pair of <=400 states x 4 hints x 2 seed pairs, 4 hashers; deep destinations (depth 4)"});
             }
         }
         "C17" => {
